@@ -25,6 +25,12 @@ def check(run):
     exc(run, p, fc)
     perm(run, p, fc)
     rawremove(run, p, fc)
+    from .common import gotcha_rule
+    n = gotcha_rule(run, 'C04-WHOLESTR', p, ['tdda.referencetest.checkfiles', 'tdda.referencetest.utils', 'tdda.referencetest.basecomparison'],
+                    'file names, extensions and exclusion strings are compared whole: no constant written ("text") - a one-element '
+                    'tuple without its comma - is used with `in` (a substring test that the empty extension passes, so an extensionless '
+                    'reference would be read in the wrong encoding), and no list is extended by a single string')
+    run.floor('C04-WHOLESTR', n, 3)
     from .. import ief, triage
     rt = p.cls('ReferenceTest')
     ief.run_ief(run, 'C04', [p.lookup_method(rt.qn, n) for n in TEXT_ASSERTS], triage=triage.IEF)
